@@ -288,6 +288,29 @@ def part_b(ctx):
                 ctx.fail(doc0, dict(num_records=n), "record count of the store differs from the number of input records")
             source_check(ctx, doc0, p, ref, ref_dump)
             summary_check(ctx, doc0, ref)
+            # one writer object that explodes some partitions itself, the others being exploded elsewhere, and then finalises
+            outw = os.path.join(d, "w.icf")
+            w = icf_mod.IntermediateColumnarFormatWriter(outw)
+            summ = w.init([p], target_num_partitions=r.choice([2, 3, 5]), worker_processes=0, column_chunk_size=r.choice([0.001, 16]))
+            mine = [j for j in range(summ.num_partitions) if r.random() < 0.5] or [0]
+            for j in range(summ.num_partitions):
+                if j in mine:
+                    w.explode_partition(j)
+                else:
+                    vcf2zarr.explode_partition(outw, j)
+            w.finalise()
+            stw = icf_mod.IntermediateColumnarFormat(outw)
+            docw = dict(doc0, special="one writer object explodes partitions %s of %d and finalises" % (mine, summ.num_partitions))
+            ctx.case(docw, nontrivial=summ.num_partitions > 1)
+            ctx.count("e2e-writer-object")
+            if field_dump(stw) != ref_dump:
+                ctx.fail(docw, {}, "store contents depend on which process exploded a partition")
+            summary_check(ctx, docw, stw)
+            for name, fld in stw.fields.items():
+                s1, s0 = fld.vcf_field.summary, ref.fields[name].vcf_field.summary
+                if (s1.max_number, s1.min_value, s1.max_value) != (s0.max_number, s0.min_value, s0.max_value):
+                    ctx.fail(dict(docw, field=name), dict(got=str(s1), ref=str(s0)), "field summary depends on partitioning / on which process exploded a partition")
+            shutil.rmtree(outw, ignore_errors=True)
             for cfg in range(ctx.n(2, 4)):
                 nparts = r.choice([1, 2, 3, 5, 50])
                 ccs = r.choice([1e-6, 0.0002, 0.001, 16])
